@@ -179,6 +179,17 @@ func (t *dateWithUTCTime) MarshalText() ([]byte, error) {
 	return []byte(s), nil
 }
 
+// MarshalXMLAttr omits the attribute for the zero time: "omitempty" has no
+// effect on struct values, and an open-ended time-range must not carry the
+// bound at all.
+func (t dateWithUTCTime) MarshalXMLAttr(name xml.Name) (xml.Attr, error) {
+	if time.Time(t).IsZero() {
+		return xml.Attr{}, nil
+	}
+	b, err := t.MarshalText()
+	return xml.Attr{Name: name, Value: string(b)}, err
+}
+
 // Request variant of https://tools.ietf.org/html/rfc4791#section-9.6
 type calendarDataReq struct {
 	XMLName xml.Name `xml:"urn:ietf:params:xml:ns:caldav calendar-data"`
